@@ -9,6 +9,7 @@ package main
 
 import (
 	"encoding/json"
+	"errors"
 	"expvar"
 	"fmt"
 	"strings"
@@ -35,6 +36,20 @@ func executorExport() verifExecutorNew {
 	return n
 }
 
+type verifExecutorFaultyNew = func(sink func(*executor.Call) error, e mesos.ExecutorInfo, a mesos.AgentInfo) (
+	launch func(mesos.TaskInfo) error, kill func(mesos.TaskID) error, message func([]byte) error,
+	active func(mesos.TaskID) bool, stop func())
+
+func executorFaultyExport() verifExecutorFaultyNew {
+	v := expvar.Get("verif.executor.faulty")
+	f, ok := v.(expvar.Func)
+	if !ok {
+		return nil
+	}
+	n, _ := f.Value().(verifExecutorFaultyNew)
+	return n
+}
+
 type cmdResponse struct {
 	name, state, err string
 }
@@ -49,9 +64,22 @@ type hx struct {
 
 	mu        sync.Mutex
 	responses map[string]cmdResponse
+	// agent-down cases: UPDATE calls attempted so far, and whether a terminal one was delivered
+	nUpd          int
+	termDelivered bool
 }
 
 func bindHandlers(r *runner) *hx {
+	if r.c.AgentDown != nil {
+		nf := executorFaultyExport()
+		if nf == nil {
+			return nil
+		}
+		h := &hx{r: r, responses: map[string]cmdResponse{}}
+		h.launch, h.kill, h.message, h.active, h.stop = nf(h.sinkFaulty,
+			mesos.ExecutorInfo{ExecutorID: mesos.ExecutorID{Value: "executor-0"}}, mesos.AgentInfo{Hostname: "localhost"})
+		return h
+	}
 	n := executorExport()
 	if n == nil {
 		return nil
@@ -70,6 +98,44 @@ func asString(v interface{}) string {
 		return ""
 	}
 	return fmt.Sprint(v)
+}
+
+// sinkFaulty is the agent link of an agent-down case: the UPDATE calls the case's script names are
+// refused (the executor's Send fails, the agent never sees them - recorded as "update-lost"); every
+// other call is delivered. What the oracle judges is the sequence of DELIVERED status updates.
+func (h *hx) sinkFaulty(call *executor.Call) error {
+	if call != nil && call.Type == executor.Call_UPDATE && call.Update != nil && call.Update.Status.State != nil {
+		st := *call.Update.Status.State
+		ad := h.r.c.AgentDown
+		h.mu.Lock()
+		h.nUpd++
+		lose := false
+		switch ad.Mode {
+		case "count":
+			lose = h.nUpd >= ad.From && h.nUpd < ad.From+ad.N
+		case "until-terminal":
+			lose = !isTerminal(st) && !h.termDelivered
+		}
+		if !lose && isTerminal(st) {
+			h.termDelivered = true
+		}
+		h.mu.Unlock()
+		if lose {
+			h.r.rec(Rec{Ev: "update-lost", State: st.String()})
+			// the attempt still tells the driver how far the task has got
+			h.r.mu.Lock()
+			if isTerminal(st) {
+				h.r.nTerm++
+			}
+			if st == mesos.TASK_RUNNING {
+				h.r.nRun++
+			}
+			h.r.mu.Unlock()
+			return errors.New("verif: agent unreachable")
+		}
+	}
+	h.sink(call)
+	return nil
 }
 
 // sink receives everything the executor would send to the Mesos agent.
